@@ -26,7 +26,7 @@ import (
 	selectorparse "github.com/ipld/go-ipld-prime/traversal/selector/parse"
 	"github.com/multiformats/go-multicodec"
 
-	_ "github.com/ipld/go-ipld-prime/codec/dagcbor"
+	"github.com/ipld/go-ipld-prime/codec/dagcbor"
 	_ "github.com/ipld/go-ipld-prime/codec/raw"
 )
 
@@ -64,6 +64,21 @@ func (g *Gen) buildDag(depth int) *dag {
 		}
 		level = append(level, l)
 		d.all = append(d.all, l.(cidlink.Link).Cid)
+	}
+	if g.pick(3) == 0 {
+		// multihash twins: the same bytes (a CBOR text string) linked once as raw and once as dag-cbor —
+		// two different CIDs, two blocks to write, one multihash
+		txt := fmt.Sprintf("twin-%d-%x", g.pick(1000), g.bytes(1+g.pick(20)))
+		n := basicnode.NewString(txt)
+		var buf bytes.Buffer
+		if err := dagcbor.Encode(n, &buf); err == nil {
+			l1, e1 := d.ls.Store(linking.LinkContext{}, rawLP, basicnode.NewBytes(buf.Bytes()))
+			l2, e2 := d.ls.Store(linking.LinkContext{}, cborLP, n)
+			if e1 == nil && e2 == nil {
+				level = append(level, l1, l2)
+				d.all = append(d.all, l1.(cidlink.Link).Cid, l2.(cidlink.Link).Cid)
+			}
+		}
 	}
 	var older []datamodel.Link
 	for lv := 0; lv < depth; lv++ {
